@@ -161,7 +161,7 @@ def empty(slice_i, n):
 
 def parts(tier):
     q = tier == "quick"
-    return [Part("huge_rulebase", enumerate_cases=(lambda t: (__import__("vf.strategies", fromlist=["x"]).rulebase_case(r_, ("Any", "Any", "All"), (0, 1, 100, r_ // 2, r_ - 1)) for r_ in ((600,) if t == "quick" else (600, 1200)))), check=check_model, time_quick=200.0), Part("scale", strategy=lambda t: __import__("vf.strategies", fromlist=["x"]).scale_case(), check=check_model, quick=(2, 40), thorough=(4, 600)), Part("shared_depths", enumerate_cases=(lambda t: ({"model": s_, "points": None} for s_ in __import__("vf.strategies", fromlist=["x"]).shared_depth_shapes())), check=check_model, time_quick=120.0), Part("adversarial_valid", strategy=lambda t: _adversarial(t), check=check_model, quick=(2, 400), thorough=(4, 4000)), Part("empty0", enumerate_cases=(lambda t: empty(0, 1)), check=check_model, time_quick=120.0), Part("wide_nodes", strategy=lambda t: __import__("vf.strategies", fromlist=["x"]).wide_case(), check=check_model, quick=(2, 150), thorough=(4, 2000))] + [Part("class_twins", strategy=lambda t: __import__("vf.strategies", fromlist=["x"]).class_twin_spec().map(lambda s_: {"model": s_, "points": None}), check=check_model, quick=(1, 300), thorough=(2, 3000))] + [Part("bounding%d" % i, enumerate_cases=(lambda t, i=i: ({"model": s_, "points": None} for s_ in __import__("vf.strategies", fromlist=["x"]).bounding_shapes(i, 2))), check=check_model, time_quick=120.0) for i in range(2)] + [Part("mixed%d" % i, enumerate_cases=(lambda t, i=i: mixed(i, 8)), check=check_model, time_quick=150.0) for i in range(8)] + [Part("shapes%d" % i, enumerate_cases=(lambda t, i=i: shapes(i, 4)), check=check_model, time_quick=120.0) for i in range(4)] + [
+    return [Part("bigm32", enumerate_cases=(lambda t: __import__("vf.strategies", fromlist=["x"]).bigm32_cases()), check=check_model, time_quick=100.0), Part("huge_rulebase", enumerate_cases=(lambda t: (__import__("vf.strategies", fromlist=["x"]).rulebase_case(r_, ("Any", "Any", "All"), (0, 1, 100, r_ // 2, r_ - 1)) for r_ in ((600,) if t == "quick" else (600, 1200)))), check=check_model, time_quick=200.0), Part("scale", strategy=lambda t: __import__("vf.strategies", fromlist=["x"]).scale_case(), check=check_model, quick=(2, 40), thorough=(4, 600)), Part("shared_depths", enumerate_cases=(lambda t: ({"model": s_, "points": None} for s_ in __import__("vf.strategies", fromlist=["x"]).shared_depth_shapes())), check=check_model, time_quick=120.0), Part("adversarial_valid", strategy=lambda t: _adversarial(t), check=check_model, quick=(2, 400), thorough=(4, 4000)), Part("empty0", enumerate_cases=(lambda t: empty(0, 1)), check=check_model, time_quick=120.0), Part("wide_nodes", strategy=lambda t: __import__("vf.strategies", fromlist=["x"]).wide_case(), check=check_model, quick=(2, 150), thorough=(4, 2000))] + [Part("class_twins", strategy=lambda t: __import__("vf.strategies", fromlist=["x"]).class_twin_spec().map(lambda s_: {"model": s_, "points": None}), check=check_model, quick=(1, 300), thorough=(2, 3000))] + [Part("bounding%d" % i, enumerate_cases=(lambda t, i=i: ({"model": s_, "points": None} for s_ in __import__("vf.strategies", fromlist=["x"]).bounding_shapes(i, 2))), check=check_model, time_quick=120.0) for i in range(2)] + [Part("mixed%d" % i, enumerate_cases=(lambda t, i=i: mixed(i, 8)), check=check_model, time_quick=150.0) for i in range(8)] + [Part("shapes%d" % i, enumerate_cases=(lambda t, i=i: shapes(i, 4)), check=check_model, time_quick=120.0) for i in range(4)] + [
         Part("small", strategy=lambda t: common.model_case(guard=1500 if t == "quick" else 6000, depth=3 if t == "quick" else 4,
                                                            profile="small"),
              check=check_model, quick=(6, 400), thorough=(12, 2500)),
